@@ -27,11 +27,15 @@ META = dict(
                "grouping, virtual-time loop.",
     rule="case = receiver scenario with a stop instant (absolute, or relative to an event of the run such as the begin of a task's "
          "cancellation clean-up) and / or N (A, P, wait_tasks_timeout, messages short / long / never-ending / slow to react to the "
-         "cancellation their timeout label causes); Further family (own random stream): the REAL taskiq.api.run_receiver_task coroutine runs for the whole scenario over a scripted listen() that raises 0..3 times (ConnectionError, RuntimeError, TimeoutError, OSError, EOFError, a client's own class, a falsy exception object, an ExceptionGroup, BrokerError) as the first thing a session does / right after taking a message / while tasks are in flight / while idle, the remaining messages going to the re-started listening; N and wait_tasks_timeout set by the receiver class handed to it, stop = the finish event it gave to listen(); decided by the direct oracles only, every listen() session held to the statement by its own messages; "
+         "cancellation their timeout label causes); for ~10 % of the stream (command-line scenarios) the real start_listen runs the worker "
+         "from beginning to end on the event loop it creates and configures itself, stopped through the signal handler it installs "
+         "(SIGINT / SIGTERM / SIGHUP, also repeated below the hard-kill count; broker path naming the object or a factory function); Further family (own random stream): the REAL taskiq.api.run_receiver_task coroutine runs for the whole scenario over a scripted listen() that raises 0..3 times (ConnectionError, RuntimeError, TimeoutError, OSError, EOFError, a client's own class, a falsy exception object, an ExceptionGroup, BrokerError) as the first thing a session does / right after taking a message / while tasks are in flight / while idle, the remaining messages going to the re-started listening; N and wait_tasks_timeout set by the receiver class handed to it, stop = the finish event it gave to listen(); decided by the direct oracles only, every listen() session held to the statement by its own messages; "
          "non-trivial iff at the shutdown trigger >= 1 callback is running and >= 1 message is taken-but-not-started or arrives within "
          "the next poll period; distinct by canonical scenario",
-    trusted_base=["model: coq/theories/RecvLTS.v", "logging shims + raw log -> LTS event grouping: harness/shims.py; harness/vloop.py"],
+    trusted_base=["model: coq/theories/RecvLTS.v", "logging shims + raw log -> LTS event grouping: harness/shims.py; harness/vloop.py",
+                  "harness/cli_glue.py run_start_listen: event-loop policy handing start_listen the virtual-time loop, signal stand-in, import hooks"],
     assumptions=["fairness of the asyncio event loop; timers fire at their instant (virtual time)",
+                 "start_listen runs: no uvloop, no process pool; the signal handler is called from a loop timer (between two callbacks)",
                  "the broker's listen() generator takes a message only at its yield; in the proofs it raises nothing but StopAsyncIteration. "
                  "Runs under run_receiver_task with a failing listen() are oracle-checked only; the worker that is asked to stop, accepts "
                  "N messages, drains and returns is read as the session listening then - the last one (the reading that demands less)"],
